@@ -54,12 +54,25 @@ class LockWalker(pathwalk.Walker):
             return g
         return None
 
-    def member(self, fn, i):
+    def member(self, fn, i, st=None):
         n = fn.sn(i)
-        while n is not None and n['k'] in ('UnaryOperator',) and n['op'] in ('&', '*'):
-            n = fn.sn(n['ch'][0])
-        if n is not None and n['k'] == 'MemberExpr':
-            return n['dn']
+        for _ in range(6):
+            while n is not None and n['k'] in ('UnaryOperator',) and n['op'] in ('&', '*'):
+                n = fn.sn(n['ch'][0])
+            if n is None:
+                return None
+            if n['k'] == 'MemberExpr':
+                return n['dn']
+            if n['k'] == 'DeclRefExpr' and n.get('id') in fn.single_defs:
+                # FiberQueue& queue = exclusive ? _exclusive_queue : _shared_queue;
+                n = fn.sn(fn.single_defs[n['id']])
+                continue
+            if n['k'] == 'ConditionalOperator' and st is not None:
+                c = self.ev(fn, n['ch'][0], st)
+                if c is not None and c[0] == 'c':
+                    n = fn.sn(n['ch'][1 if c[1] else 2])
+                    continue
+            return None
         return None
 
     def on_node(self, fn, n, st):
@@ -67,9 +80,9 @@ class LockWalker(pathwalk.Walker):
         if k == 'CXXMemberCallExpr':
             cn = n['cn']
             if cn == QUEUE_T + '::Wait':
-                st.events.append(('wait', self.member(fn, n['obj']), fn.loc(n)))
+                st.events.append(('wait', self.member(fn, n['obj'], st), fn.loc(n)))
             elif cn in (QUEUE_T + '::NotifyOne', QUEUE_T + '::NotifyAll'):
-                st.events.append(('notify', self.member(fn, n['obj']), cn[-3:], fn.loc(n)))
+                st.events.append(('notify', self.member(fn, n['obj'], st), cn[-3:], fn.loc(n)))
             return
         if k in ('BinaryOperator', 'CompoundAssignOperator') and n['op'].endswith('=') and \
                 n['op'] not in ('==', '!=', '<=', '>='):
@@ -151,6 +164,9 @@ def check_locks(ctx, fb):
     rm = ctx.rule('R-MODE', 'each acquire form leaves the same lock state as the blocking form of its mode', minimum=14)
     rt = ctx.rule('R-TRY', 'paths returning false write no lock state; paths returning true perform the acquire',
                   minimum=10)
+    rwa = ctx.rule('R-WAKEALL', 'a release never wakes just one waiter of a queue on which shared-mode acquirers park '
+                   '(all of them are compatible with each other), unless every shared acquisition passes the wake-up on',
+                   minimum=2)
     # families
     methods = {}
     for f in fb.fn.values():
@@ -218,6 +234,38 @@ def check_locks(ctx, fb):
             ref[mode] = frozenset(effs)
         if 'x' not in ref:
             ctx.broken('%s has no lock()' % root)
+
+        # ---------------- R-WAKEALL: a queue on which shared acquirers park is woken as a whole
+        if waitq['s']:
+            if None in waitq['s']:
+                ctx.broken('R-WAKEALL: cannot tell on which queue a shared acquirer of %s parks' % root)
+            # baton passing would be the alternative: every successful shared acquisition re-notifies the queue
+            def baton(q):
+                forms = [f for nm in api if nm in SHARED for f in api[nm]]
+                return bool(forms) and all(
+                    any(e[0] == 'notify' and e[1] == q for e in st.events)
+                    for f in forms for st, rv in paths(f)
+                    if any(e[0] == 'write' for e in st.events) and not (rv is not None and rv[0] == 'c' and not rv[1]))
+            for name in sorted(api):
+                if name not in RELEASE:
+                    continue
+                for f in api[name]:
+                    key = 'R-WAKEALL %s::%s' % (short(f.clsq), f.n)
+                    ones = sorted({(e[1], e[3]) for st, _ in paths(f) for e in st.events
+                                   if e[0] == 'notify' and e[2] == 'One' and e[1] in waitq['s']})
+                    ctx.instance(rwa, key, dict(shared_waiters_park_on=sorted(x.split('::')[-1] for x in waitq['s'])))
+                    for q, loc in ones:
+                        if baton(q):
+                            continue
+                        ctx.report(rwa, key, loc, 'NotifyOne on %s, a queue on which lock_shared-style acquirers park '
+                                   '(%s): when several readers are blocked only one of them is woken although the lock '
+                                   'is then available to all of them, and nothing wakes the others until that reader '
+                                   'releases (two readers that wait for each other under the shared lock never '
+                                   'finish)' % (q.split('::')[-1], ', '.join(sorted(
+                                       '%s' % nm for nm in api if nm in SHARED and any(
+                                           e[0] == 'wait' and e[1] == q for g in api[nm] for st, _ in paths(g)
+                                           for e in st.events)))))
+                        break
 
         for name in sorted(api):
             for f in api[name]:
